@@ -305,6 +305,12 @@ class Evaluator:
     def param_sym(self, name: str, typ: tuple = ANY) -> Sym:
         return Sym(name, (), typ)
 
+    @property
+    def _const_cache(self) -> Dict[tuple, Any]:
+        if not hasattr(self, '_const_cache_'):
+            self._const_cache_ = {}
+        return self._const_cache_
+
     def opaque(self, reason: str) -> TOpaque:
         self.opaque_log.append(reason)
         return TOpaque(reason)
@@ -838,6 +844,8 @@ class Evaluator:
             return self.call(e, env, fn, depth)
         if isinstance(e, ast.Subscript):
             return self.subscript(e, env, fn, depth)
+        if isinstance(e, ast.Dict) and all(k is not None for k in e.keys):
+            return ('dict', [(self.eval(k, env, fn, depth), self.eval(v, env, fn, depth)) for k, v in zip(e.keys, e.values)])
         if isinstance(e, ast.Lambda):
             return ('lambda', e, dict(env))
         if isinstance(e, ast.DictComp):
@@ -854,8 +862,12 @@ class Evaluator:
                     return TNone
                 return lit(node.value) if isinstance(node.value, str) else TConst(node.value)
             ctxfn = next(iter(mod.functions.values()), None)
-            if ctxfn is not None and isinstance(node, (ast.JoinedStr, ast.BinOp, ast.Name, ast.Attribute)):
-                return self.eval(node, {}, ctxfn, 1)
+            if ctxfn is not None and isinstance(node, (ast.JoinedStr, ast.BinOp, ast.Name, ast.Attribute, ast.Dict, ast.Call,
+                                                       ast.Tuple, ast.List)):
+                key = (mod.name, name)
+                if key not in self._const_cache:
+                    self._const_cache[key] = self.eval(node, {}, ctxfn, 1)
+                return self._const_cache[key]
             return self.opaque(f'module constant {name}')
         if isinstance(sym, tuple) and sym[0] == 'enum_member':
             return TEnum(sym[1], sym[2])
@@ -919,6 +931,11 @@ class Evaluator:
                     return TNone if node.value is None else lit(str(node.value))
             if attr == 'name':
                 return lit(base.member)
+            m = self.prog.lookup_method(base.cls, attr)
+            if m is not None and m.is_property:
+                return self.call_function(m, [], {}, depth + 1, self_val=base)
+            if m is not None:
+                return ('bound', m, base)
             return self.opaque(f'enum attribute {attr}')
         if isinstance(base, tuple) and base[0] == 'class':
             c: ClassInfo = base[1]
@@ -1030,30 +1047,61 @@ class Evaluator:
         return self.opaque(f'addition of {type(a).__name__} and {type(b).__name__}')
 
     def comprehension(self, e: Union[ast.ListComp, ast.GeneratorExp], env: Dict[str, Any], fn: FuncInfo, depth: int) -> Any:
-        if len(e.generators) != 1:
-            return self.opaque('nested comprehension')
+        if len(e.generators) > 1:
+            # [elt for a in A for b in B]  ==  the concatenation of [[elt for b in B] for a in A]
+            inner = ast.ListComp(elt=e.elt, generators=list(e.generators[1:]))
+            outer = ast.ListComp(elt=inner, generators=[e.generators[0]])
+            ast.copy_location(inner, e)
+            ast.copy_location(outer, e)
+            res = self.comprehension(outer, env, fn, depth)
+            if not isinstance(res, TList):
+                return res
+            flat = []
+            for x in res.items:
+                if isinstance(x, TList):
+                    flat.extend(x.items)
+                elif isinstance(x, RepL) and all(isinstance(y, TList) for y in x.items):
+                    flat.append(RepL(x.src, [z for y in x.items for z in y.items]))
+                elif isinstance(x, AltL) and all(isinstance(y, TList) for y in x.a + x.b):
+                    flat.append(AltL(x.cond, [z for y in x.a for z in y.items], [z for y in x.b for z in y.items]))
+                else:
+                    return self.opaque('nested comprehension')
+            return TList(flat)
         g = e.generators[0]
         it = self.eval(g.iter, env, fn, depth)
-        if isinstance(it, TList) and all(not isinstance(x, (RepL, AltL)) for x in it.items) and not g.ifs:
-            # literal list: map each element
-            out = []
-            for x in it.items:
-                env2 = dict(env)
+        if isinstance(it, TList):
+            # a list value (literal items, repetitions, alternatives): the comprehension maps / filters it element-wise,
+            # a repetition stays a repetition over the same source (composition of maps)
+            def one(x, env_):
+                env2 = dict(env_)
                 self._assign(g.target, x, env2, fn, depth)
-                out.append(self.eval(e.elt, env2, fn, depth))
-            return TList(out)
-        if isinstance(it, TList) and all(not isinstance(x, (RepL, AltL)) for x in it.items) and g.ifs:
-            out = []
-            for x in it.items:
-                env2 = dict(env)
-                self._assign(g.target, x, env2, fn, depth)
-                c = self.cond(ast.BoolOp(op=ast.And(), values=list(g.ifs)) if len(g.ifs) > 1 else g.ifs[0], env2, fn, depth)
-                v = self.eval(e.elt, env2, fn, depth)
-                if c == TRUE:
-                    out.append(v)
-                elif c != FALSE:
-                    out.append(AltL(c, [v], []))
-            return TList(out)
+                c = TRUE
+                if g.ifs:
+                    c = self.cond(ast.BoolOp(op=ast.And(), values=list(g.ifs)) if len(g.ifs) > 1 else g.ifs[0], env2, fn, depth)
+                return c, self.eval(e.elt, env2, fn, depth)
+
+            def map_items(items):
+                out = []
+                for x in items:
+                    if isinstance(x, RepL):
+                        if len(x.items) == 1 and not isinstance(x.items[0], (RepL, AltL)) and g.ifs:
+                            c, v = one(x.items[0], env)
+                            if c == FALSE:
+                                continue
+                            src2 = Src(x.src.base, x.src.var, list(x.src.filters) + ([] if c == TRUE else [c]), x.src.order)
+                            out.append(RepL(src2, [v]))
+                        else:
+                            out.append(RepL(x.src, map_items(x.items)))
+                    elif isinstance(x, AltL):
+                        out.append(AltL(x.cond, map_items(x.a), map_items(x.b)))
+                    else:
+                        c, v = one(x, env)
+                        if c == TRUE:
+                            out.append(v)
+                        elif c != FALSE:
+                            out.append(AltL(c, [v], []))
+                return out
+            return TList(map_items(it.items))
         src = self.make_src(it, g.target, fn)
         if src is None:
             return self.opaque(f'comprehension over {type(it).__name__}')
@@ -1107,6 +1155,13 @@ class Evaluator:
 
     def subscript(self, e: ast.Subscript, env: Dict[str, Any], fn: FuncInfo, depth: int) -> Any:
         base = self.eval(e.value, env, fn, depth)
+        if isinstance(base, tuple) and base and base[0] == 'dict':
+            k = self.eval(e.slice, env, fn, depth)
+            if isinstance(k, (TEnum, TConst)) or (isinstance(k, TStr) and k.is_const()):
+                for kk, vv in base[1]:
+                    if repr(kk) == repr(k):
+                        return vv
+            return self.opaque('lookup in a constant table with a key that is not a constant')
         if isinstance(base, TList) and isinstance(e.slice, ast.Constant) and isinstance(e.slice.value, int):
             i = e.slice.value
             if all(not isinstance(x, (RepL, AltL)) for x in base.items) and -len(base.items) <= i < len(base.items):
@@ -1409,6 +1464,32 @@ class Evaluator:
                 return Cond(meth, (self.cond_leaf(recv), self.cond_leaf(arg)))
             if meth == 'startswith':
                 return Cond('opaque', ('startswith',))
+            if meth == 'format' and recv.const() is not None and not any(isinstance(a, ast.Starred) for a in e.args) and \
+                    all(k.arg for k in e.keywords):
+                import string
+                pos = [self.eval(a, env, fn, depth) for a in e.args]
+                kw = {k.arg: self.eval(k.value, env, fn, depth) for k in e.keywords}
+                out = TStr()
+                auto = 0
+                try:
+                    for text, field_name, spec, conv in string.Formatter().parse(recv.const()):
+                        if text:
+                            out = out + lit(text)
+                        if field_name is None:
+                            continue
+                        if spec or conv:
+                            return self.opaque('str.format with a format spec')
+                        if field_name == '':
+                            v = pos[auto]
+                            auto += 1
+                        elif field_name.isdigit():
+                            v = pos[int(field_name)]
+                        else:
+                            v = kw[field_name]
+                        out = out + self.to_str(v, depth)
+                except (KeyError, IndexError, ValueError):
+                    return self.opaque('str.format with a field that is not given')
+                return out
             return self.opaque(f'str.{meth}')
         if isinstance(recv, Sym) and strip_opt(recv.typ)[0] in ('str', 'any') and meth in ('startswith', 'endswith') \
                 and len(e.args) == 1:
